@@ -96,7 +96,11 @@ func init() {
 		n := int(nT.U.Int64())
 		arr := newCell(typeByteArray(n))
 		for i := 0; i < n; i++ {
-			arr.Elems[i].V = VInt{e.fresh(fmt.Sprintf("%s_%d", name, i), 8)}
+			if intMode {
+				arr.Elems[i].V = VInt{e.imFresh(fmt.Sprintf("%s_%d", name, i), 8, false)}
+			} else {
+				arr.Elems[i].V = VInt{e.fresh(fmt.Sprintf("%s_%d", name, i), 8)}
+			}
 		}
 		return VSlice{arr, 0, n, n}
 	}
@@ -146,10 +150,26 @@ func init() {
 	intrinsics[S+"Symbolic"] = func(e *Exec, a []Value) Value { return VBool{BoolC(true)} }
 
 	verifHooks["verifBool"] = func(e *Exec, a []Value) Value {
+		if !e.injectFailures {
+			return VBool{BoolC(false)}
+		}
 		e.nondet++
 		return VBool{e.fresh(fmt.Sprintf("%s_%d", strArg(a[0]), e.nondet), SBool)}
 	}
 	// ilen UF: length of the well-formed CBOR item starting at absolute offset off of data's backing array
+	verifHooks["verifOpaqueBytes"] = func(e *Exec, a []Value) Value {
+		e.nondet++
+		n := 4
+		arr := newCell(typeByteArray(n))
+		for i := 0; i < n; i++ {
+			if intMode {
+				arr.Elems[i].V = VInt{e.imFresh(fmt.Sprintf("%s%d_%d", strArg(a[0]), e.nondet, i), 8, false)}
+			} else {
+				arr.Elems[i].V = VInt{e.fresh(fmt.Sprintf("%s%d_%d", strArg(a[0]), e.nondet, i), 8)}
+			}
+		}
+		return VSlice{arr, 0, n, n}
+	}
 	verifHooks["verifBoundExceeded"] = func(e *Exec, a []Value) Value {
 		e.unwound = append(e.unwound, "contract bound: "+strArg(a[0]))
 		panic(pathEnd{"BOUND " + strArg(a[0])})
@@ -176,8 +196,14 @@ func init() {
 			arrIDs[ss.Arr] = id
 		}
 		name := fmt.Sprintf("ilen_%d", id)
-		e.sol.DeclareFun(name, "((_ BitVec 64)) (_ BitVec 64)")
 		abs := tAdd(ss.Off, off)
+		if intMode {
+			e.sol.DeclareFun(name, "(Int) Int")
+			t := app(SInt, name, abs)
+			e.sol.Assert(And(IntCmp(">=", t, IntC(big.NewInt(1))), IntCmp("<=", t, IntC(big.NewInt(64)))))
+			return VInt{t}
+		}
+		e.sol.DeclareFun(name, "((_ BitVec 64)) (_ BitVec 64)")
 		t := app(64, name, abs)
 		e.sol.Assert(And(BVBin(">=", t, BVu(64, 1), false), BVBin("<=", t, BVu(64, 64), false)))
 		return VInt{t}
@@ -265,4 +291,11 @@ func init() {
 	intrinsics["errors.New"] = func(e *Exec, a []Value) Value { return newError("errors.New:" + strArg(a[0])) }
 	intrinsics["fmt.Errorf"] = func(e *Exec, a []Value) Value { return newError("fmt.Errorf:" + strArg(a[0])) }
 	intrinsics["fmt.Sprintf"] = func(e *Exec, a []Value) Value { return VStr{"<sprintf>"} }
+}
+
+func byteC(v uint64) Term {
+	if intMode {
+		return IntC(new(big.Int).SetUint64(v))
+	}
+	return BVu(8, v)
 }
